@@ -11,25 +11,38 @@ import (
 	"context"
 	"encoding/binary"
 	"fmt"
+	"io"
 	"os"
 	"path/filepath"
 	"sort"
 	"strings"
+	"sync/atomic"
 	"testing"
+	"testing/synctest"
 	"time"
+
+	"storj.io/drpc"
 
 	anystore "github.com/anyproto/any-store"
 
+	"github.com/anyproto/any-sync/accountservice"
+	"github.com/anyproto/any-sync/app"
 	"github.com/anyproto/any-sync/app/ldiff"
 	"github.com/anyproto/any-sync/commonspace/object/accountdata"
 	"github.com/anyproto/any-sync/commonspace/object/acl/list"
 	"github.com/anyproto/any-sync/commonspace/object/acl/recordverifier"
+	"github.com/anyproto/any-sync/commonspace/object/acl/syncacl"
 	"github.com/anyproto/any-sync/commonspace/object/keyvalue"
 	"github.com/anyproto/any-sync/commonspace/object/keyvalue/keyvaluestorage"
 	"github.com/anyproto/any-sync/commonspace/object/keyvalue/keyvaluestorage/innerstorage"
+	"github.com/anyproto/any-sync/commonspace/object/keyvalue/kvinterfaces"
+	"github.com/anyproto/any-sync/commonspace/spacestate"
 	"github.com/anyproto/any-sync/commonspace/spacestorage"
 	"github.com/anyproto/any-sync/commonspace/spacesyncproto"
+	"github.com/anyproto/any-sync/commonspace/sync"
+	"github.com/anyproto/any-sync/commonspace/sync/objectsync/objectmessages"
 	"github.com/anyproto/any-sync/consensus/consensusproto"
+	"github.com/anyproto/any-sync/net/peer"
 	"github.com/anyproto/any-sync/util/cidutil"
 	"github.com/anyproto/any-sync/util/crypto"
 
@@ -82,9 +95,33 @@ type node struct {
 	acl    list.AclList
 	aclIdx int
 	store  keyvaluestorage.Storage
+	svc    kvinterfaces.KeyValueService // the real key-value service (owns store)
+	a      *app.App
 	model  map[string]slotVal // slot (KeyPeerId) -> winning valid value received so far
 	// values that were valid but cited an ACL record this node did not hold when they arrived
-	sent []*msg
+	sent   []*msg
+	outbox []outMsg
+}
+
+type outMsg struct {
+	bytes []byte
+	n     int
+}
+
+// flushOut puts what the nodes broadcast since the last call on the network, in node order.
+func (w *world) flushOut() {
+	for _, n := range w.nodes {
+		for _, m := range n.outbox {
+			for _, o := range w.nodes {
+				if o.idx == n.idx {
+					continue
+				}
+				w.seq++
+				w.msgs = append(w.msgs, &msg{seq: w.seq, src: n.idx, dst: o.idx, bytes: m.bytes, note: fmt.Sprintf("%d values", m.n)})
+			}
+		}
+		n.outbox = nil
+	}
 }
 
 type msg struct {
@@ -113,27 +150,208 @@ type world struct {
 	lagRun  bool
 }
 
-type kvClient struct{ n *node }
+// kvSync is the sync service the key-value service broadcasts through: every broadcast becomes one message
+// in flight to every other node (bytes as they cross the wire).
+type kvSync struct {
+	sync.SyncService
+	n *node
+}
 
-func (c *kvClient) Broadcast(ctx context.Context, objectId string, kvs ...innerstorage.KeyValue) error {
-	w := c.n.w
-	var protos []*spacesyncproto.StoreKeyValue
-	for _, kv := range kvs {
-		protos = append(protos, kv.Proto())
+func (c *kvSync) Init(*app.App) error { return nil }
+func (c *kvSync) Name() string        { return sync.CName }
+func (c *kvSync) BroadcastMessage(ctx context.Context, m drpc.Message) error {
+	hu, ok := m.(*objectmessages.HeadUpdate)
+	if !ok {
+		return fmt.Errorf("unexpected broadcast %T", m)
 	}
-	b, err := (&spacesyncproto.StoreKeyValues{KeyValues: protos}).MarshalVT()
+	pm, err := hu.ProtoMessage()
 	if err != nil {
 		return err
 	}
-	for _, o := range w.nodes {
-		if o.idx == c.n.idx {
-			continue
-		}
-		w.seq++
-		w.msgs = append(w.msgs, &msg{seq: w.seq, src: c.n.idx, dst: o.idx, bytes: b, note: fmt.Sprintf("%d values", len(kvs))})
+	b := append([]byte{}, pm.(*spacesyncproto.ObjectSyncMessage).Payload...)
+	kvs := &spacesyncproto.StoreKeyValues{}
+	if err := kvs.UnmarshalVT(b); err != nil {
+		return err
+	}
+	// (queued per node: during an exchange both services broadcast from their own goroutines; the event loop
+	// moves the queues into the network in node order)
+	c.n.outbox = append(c.n.outbox, outMsg{b, len(kvs.KeyValues)})
+	return nil
+}
+
+type kvAccount struct{ keys *accountdata.AccountKeys }
+
+func (a *kvAccount) Init(*app.App) error               { return nil }
+func (a *kvAccount) Name() string                      { return accountservice.CName }
+func (a *kvAccount) Account() *accountdata.AccountKeys { return a.keys }
+
+type kvAcl struct{ list.AclList }
+
+func (a kvAcl) Init(*app.App) error { return nil }
+func (a kvAcl) Name() string        { return syncacl.CName }
+
+// ---- the wire between two key-value services ---------------------------------------------------------------
+
+// kvPipe is one direction of a stream: marshalled messages, in order.
+type kvPipe struct {
+	ch     chan []byte
+	closed chan struct{}
+}
+
+func newPipe() *kvPipe { return &kvPipe{ch: make(chan []byte, 100000), closed: make(chan struct{})} }
+
+type kvStreamEnd struct {
+	ctx      context.Context
+	in, out  *kvPipe
+	conn     *kvConn
+	isClient bool
+	recvN    int
+}
+
+func (e *kvStreamEnd) Context() context.Context { return e.ctx }
+func (e *kvStreamEnd) CloseSend() error         { return nil }
+func (e *kvStreamEnd) Close() error {
+	select {
+	case <-e.out.closed:
+	default:
+		close(e.out.closed)
 	}
 	return nil
 }
+func (e *kvStreamEnd) MsgSend(m drpc.Message, _ drpc.Encoding) error {
+	b, err := m.(*spacesyncproto.StoreKeyValue).MarshalVT()
+	if err != nil {
+		return err
+	}
+	select {
+	case <-e.in.closed: // the other side hung up
+		return io.ErrClosedPipe
+	default:
+	}
+	e.out.ch <- b
+	return nil
+}
+func (e *kvStreamEnd) MsgRecv(m drpc.Message, _ drpc.Encoding) error {
+	if e.isClient && e.conn.breakAt >= 0 && e.recvN >= e.conn.breakAt {
+		e.conn.broke = true
+		_ = e.Close()
+		return io.ErrUnexpectedEOF // the stream breaks here
+	}
+	select {
+	case b := <-e.in.ch:
+		kv := m.(*spacesyncproto.StoreKeyValue)
+		if err := kv.UnmarshalVT(b); err != nil {
+			return err
+		}
+		e.recvN++
+		e.conn.tap(e.isClient, b)
+		return nil
+	case <-e.in.closed:
+		select {
+		case b := <-e.in.ch:
+			kv := m.(*spacesyncproto.StoreKeyValue)
+			if err := kv.UnmarshalVT(b); err != nil {
+				return err
+			}
+			e.recvN++
+			e.conn.tap(e.isClient, b)
+			return nil
+		default:
+		}
+		return io.EOF
+	}
+}
+
+// server side of StoreElements (what the generated drpc stream wrapper provides)
+type kvServerStream struct{ *kvStreamEnd }
+
+func (s kvServerStream) Send(m *spacesyncproto.StoreKeyValue) error { return s.MsgSend(m, nil) }
+func (s kvServerStream) Recv() (*spacesyncproto.StoreKeyValue, error) {
+	m := &spacesyncproto.StoreKeyValue{}
+	if err := s.MsgRecv(m, nil); err != nil {
+		return nil, err
+	}
+	return m, nil
+}
+
+// kvConn: the drpc connection of the client node to the server node for one exchange.
+type kvConn struct {
+	w        *world
+	c, s     *node
+	breakAt  int
+	broke    bool
+	pushed   []*spacesyncproto.StoreKeyValue // values the server received from the client
+	received []*spacesyncproto.StoreKeyValue // values the client received from the server
+	asked    int
+	srvErr   error
+}
+
+func (c *kvConn) tap(clientSide bool, b []byte) {
+	kv := &spacesyncproto.StoreKeyValue{}
+	must(kv.UnmarshalVT(b))
+	switch {
+	case clientSide && kv.KeyPeerId != "":
+		c.received = append(c.received, kv)
+	case !clientSide && kv.Value != nil:
+		c.pushed = append(c.pushed, kv)
+	case !clientSide && kv.KeyPeerId != "":
+		c.asked++
+	}
+}
+
+func (c *kvConn) Close() error            { return nil }
+func (c *kvConn) Closed() <-chan struct{} { return make(chan struct{}) }
+func (c *kvConn) Invoke(ctx context.Context, rpc string, _ drpc.Encoding, in, out drpc.Message) error {
+	if !strings.HasSuffix(rpc, "/StoreDiff") {
+		return fmt.Errorf("unexpected rpc %s", rpc)
+	}
+	b, err := in.(*spacesyncproto.StoreDiffRequest).MarshalVT()
+	if err != nil {
+		return err
+	}
+	req := &spacesyncproto.StoreDiffRequest{}
+	if err = req.UnmarshalVT(b); err != nil {
+		return err
+	}
+	resp, err := c.s.svc.HandleStoreDiffRequest(ctx, req)
+	if err != nil {
+		return err
+	}
+	ob, err := resp.MarshalVT()
+	if err != nil {
+		return err
+	}
+	return out.(*spacesyncproto.StoreDiffResponse).UnmarshalVT(ob)
+}
+func (c *kvConn) NewStream(ctx context.Context, rpc string, _ drpc.Encoding) (drpc.Stream, error) {
+	if !strings.HasSuffix(rpc, "/StoreElements") {
+		return nil, fmt.Errorf("unexpected rpc %s", rpc)
+	}
+	up, down := newPipe(), newPipe()
+	cl := &kvStreamEnd{ctx: ctx, in: down, out: up, conn: c, isClient: true}
+	sv := &kvStreamEnd{ctx: ctxb, in: up, out: down, conn: c}
+	go func() {
+		// the rpc layer reads the first message to find the space, then hands the stream to its service
+		first, err := kvServerStream{sv}.Recv()
+		if err != nil || first.SpaceId != c.w.space.Id {
+			c.srvErr = fmt.Errorf("routing message: %v", err)
+		} else {
+			c.srvErr = c.s.svc.HandleStoreElementsRequest(ctxb, kvServerStream{sv})
+		}
+		_ = sv.Close()
+	}()
+	return cl, nil
+}
+
+type kvPeer struct {
+	peer.Peer
+	id   string
+	conn *kvConn
+}
+
+func (p *kvPeer) Id() string                                         { return p.id }
+func (p *kvPeer) AcquireDrpcConn(context.Context) (drpc.Conn, error) { return p.conn, nil }
+func (p *kvPeer) ReleaseDrpcConn(context.Context, drpc.Conn)         {}
 
 func storageId(spaceId string) string {
 	data, err := (&spacesyncproto.StorageHeader{SpaceId: spaceId, StorageName: "default"}).MarshalVT()
@@ -161,8 +379,15 @@ func (w *world) addNode(dev *device, faulty bool) *node {
 	must(err)
 	n.acl, err = list.BuildAclListWithIdentity(dev.keys, aclSt, recordverifier.NewValidateFull())
 	must(err)
-	n.store, err = keyvaluestorage.New(ctxb, w.storeId, db, n.ss.HeadStorage(), dev.keys, &kvClient{n}, n.acl, keyvaluestorage.NoOpIndexer{})
-	must(err)
+	n.svc = keyvalue.New()
+	n.a = new(app.App)
+	n.a.Register(&spacestate.SpaceState{SpaceId: w.space.Id, SpaceIsClosed: &atomic.Bool{}, TreesUsed: &atomic.Int32{}}).
+		Register(&kvAccount{dev.keys}).Register(kvAcl{n.acl}).Register(n.ss).Register(&kvSync{n: n}).Register(keyvaluestorage.NoOpIndexer{}).Register(n.svc)
+	must(n.a.Start(ctxb))
+	n.store = n.svc.DefaultStore()
+	if n.store.Id() != w.storeId {
+		panic("harness: store id mismatch")
+	}
 	w.nodes = append(w.nodes, n)
 	return n
 }
@@ -422,97 +647,58 @@ func wire(kv *spacesyncproto.StoreKeyValue) *spacesyncproto.StoreKeyValue {
 	return out
 }
 
-// pull: one sync exchange of client c with server s (the message flow of keyValueService.syncWithPeer
-// and HandleStoreElementsRequest, message by message). breakAt >= 0 ends the stream after that many
-// messages from the server.
-func (w *world) pull(c, s *node, breakAt int, batch int) {
-	if w.big {
-		batch *= 40
-	}
-	rd := keyvalue.NewRemoteDiff(w.space.Id, wireClient{s})
-	newIds, changedIds, theirChangedIds, removedIds, err := c.store.InnerStorage().Diff().CompareDiff(ctxb, rd)
-	if err != nil {
-		w.r.Fail("pull-failed", "diff", "%s <- %s: CompareDiff: %v", c.name, s.name, err)
-	}
-	// client -> server: our values they lack or hold older
-	var toSave []*spacesyncproto.StoreKeyValue
-	for _, id := range append(append([]string{}, removedIds...), changedIds...) {
-		kv, err := c.store.InnerStorage().GetKeyPeerId(ctxb, id)
-		if err != nil {
-			w.r.Fail("pull-failed", "get", "%s: GetKeyPeerId: %v", c.name, err)
-		}
-		toSave = append(toSave, wire(kv.Proto()))
-	}
-	want := append(append([]string{}, theirChangedIds...), newIds...)
-	// server side: stream the requested values newest first, then store what the client pushed
-	type item struct {
-		id   string
-		head string
-	}
-	var items []item
-	for _, id := range want {
-		el, err := s.store.InnerStorage().Diff().Element(id)
-		h := ""
-		if err == nil {
-			h = el.Head
-		}
-		items = append(items, item{id, h})
-	}
-	sort.Slice(items, func(i, j int) bool {
-		if items[i].head != items[j].head {
-			return items[i].head > items[j].head
-		}
-		return items[i].id < items[j].id
-	})
-	var stream []*spacesyncproto.StoreKeyValue
-	for _, it := range items {
-		kv, err := s.store.InnerStorage().GetKeyPeerId(ctxb, it.id)
-		if err != nil {
-			continue
-		}
-		stream = append(stream, wire(kv.Proto()))
-	}
-	s.receive(toSave)
-	err = s.store.SetRaw(ctxb, toSave...)
+// pull: one sync exchange of client c with server s, run by the real services: c's SyncWithPeer over a harness
+// connection whose Invoke / NewStream end in s's HandleStoreDiffRequest / HandleStoreElementsRequest; every
+// message crosses as bytes. breakAt >= 0: the stream from the server breaks after that many messages.
+func (w *world) pull(c, s *node, breakAt int, _ int) {
+	conn := &kvConn{w: w, c: c, s: s, breakAt: breakAt}
+	_ = c.svc.SyncWithPeer(&kvPeer{id: s.name, conn: conn})
+	synctest.Wait() // the exchange runs to its end (both services' goroutines)
+	// the server stores what the client pushed whatever happens to the stream afterwards
+	s.receive(conn.pushed)
 	s.check("pull: server stored the client's values")
-	// client side: apply in batches as they arrive
-	broke := false
-	var buf []*spacesyncproto.StoreKeyValue
-	flush := func() {
-		if len(buf) == 0 {
-			return
-		}
-		c.receive(buf)
-		if err := c.store.SetRaw(ctxb, buf...); err != nil && c.plan == nil {
-			w.r.Fail("pull-failed", "apply", "%s: SetRaw of a pulled batch: %v", c.name, err)
-		}
-		buf = buf[:0]
-		c.check("pull: client applied a batch")
-	}
-	for i, kv := range stream {
-		if breakAt >= 0 && i >= breakAt {
-			broke = true
-			break
-		}
-		buf = append(buf, kv)
-		if len(buf) >= batch {
-			flush()
-		}
-	}
-	if !broke {
-		flush()
+	if !conn.broke {
+		c.receive(conn.received)
 	} else {
+		// a broken stream leaves a prefix of what was received applied (the client applies in batches): per slot
+		// any state on the way from the old winner to the winner over everything received is acceptable
 		w.r.Fault("stream-break")
+		c.receiveSomePrefix(conn.received)
 	}
-	w.r.Event("pull", "%s <- %s: new=%d theirs-newer=%d ours-newer=%d only-ours=%d sent=%d/%d broke=%v (%v)", c.name, s.name, len(newIds), len(theirChangedIds), len(changedIds), len(removedIds), len(stream), len(want), broke, errS(err))
+	c.check("pull: client applied what it received")
+	w.r.Event("pull", "%s <- %s: pushed=%d asked=%d received=%d broke=%v server=%v", c.name, s.name, len(conn.pushed), conn.asked, len(conn.received), conn.broke, errS(conn.srvErr))
 	// one complete exchange makes the two stores equal (both know the whole ACL, nothing failed)
-	if !broke && err == nil && !w.lagRun && c.plan == nil && s.plan == nil {
+	if !conn.broke && conn.srvErr == nil && !w.lagRun && c.plan == nil && s.plan == nil {
 		a, b := stored(c), stored(s)
 		if fmt.Sprint(a) != fmt.Sprint(b) {
 			w.r.Fail("exchange-incomplete", "", "after one complete sync exchange %s holds %d values and %s holds %d: %s", c.name, len(a), s.name, len(b), firstDiff(a, b))
 		}
 		w.r.Probe("complete-exchange")
 	}
+}
+
+// receiveSomePrefix: the node applied an unknown prefix of kvs; the model follows the store as long as the
+// store holds a state reachable that way.
+func (n *node) receiveSomePrefix(kvs []*spacesyncproto.StoreKeyValue) {
+	reach := map[string][]slotVal{}
+	tmp := &node{w: n.w, idx: n.idx, name: n.name, dev: n.dev, acl: n.acl, aclIdx: n.aclIdx, model: map[string]slotVal{}}
+	for k, v := range n.model {
+		tmp.model[k] = v
+	}
+	for _, kv := range kvs {
+		tmp.receive([]*spacesyncproto.StoreKeyValue{kv})
+		if v, ok := tmp.model[kv.KeyPeerId]; ok {
+			reach[kv.KeyPeerId] = append(reach[kv.KeyPeerId], v)
+		}
+	}
+	_ = n.store.InnerStorage().IterateValues(ctxb, func(kv innerstorage.KeyValue) (bool, error) {
+		for _, v := range reach[kv.KeyPeerId] {
+			if v.ts == kv.TimestampMicro && bytes.Equal(v.value, kv.Value.Value) {
+				n.model[kv.KeyPeerId] = v
+			}
+		}
+		return true, nil
+	})
 }
 
 // stored: what a node's store really holds (slot@timestamp), read back from storage.
@@ -609,7 +795,6 @@ func runC12(r *core.Run) {
 		} else {
 			n.aclTo(3)
 		}
-		must(n.store.Prepare())
 	}
 	w.keys = []string{"ka", "kb", "kc"}[:1+s.Choose("nkeys", 3)]
 	faultFree := s.Flip("faultfree", 0.1)
@@ -622,6 +807,7 @@ func runC12(r *core.Run) {
 			time.Sleep(time.Millisecond)
 			before := len(w.msgs)
 			must(n0.store.Set(ctxb, fmt.Sprintf("big%03d", i), []byte("v")))
+			w.flushOut()
 			if len(w.msgs) > before {
 				kvs := &spacesyncproto.StoreKeyValues{}
 				must(kvs.UnmarshalVT(w.msgs[before].bytes))
@@ -647,6 +833,7 @@ func runC12(r *core.Run) {
 	}
 	nset := 0
 	for i := 0; i < steps; i++ {
+		w.flushOut()
 		nm := len(w.msgs)
 		wFailWrite, wRegroup := wf, 2
 		if faultNode >= 0 {
@@ -668,6 +855,7 @@ func runC12(r *core.Run) {
 			}
 			before := len(w.msgs)
 			err := n.store.Set(ctxb, key, val)
+			w.flushOut()
 			if armed {
 				n.plan.Armed = false
 				if n.plan.Fired > 0 {
@@ -791,6 +979,17 @@ func runC12(r *core.Run) {
 			n.plan.Calls, n.plan.FailAt, n.plan.Armed = nil, 1+s.Choose("fail-at", 7), true
 			kvs := &spacesyncproto.StoreKeyValues{}
 			must(kvs.UnmarshalVT(m.bytes))
+			if s.Flip("fault-on-burst", 0.5) {
+				// everything in flight from that sender arrives as one batch (several versions of a slot together)
+				for _, o := range mine {
+					if o != m && o.src == m.src {
+						more := &spacesyncproto.StoreKeyValues{}
+						must(more.UnmarshalVT(o.bytes))
+						kvs.KeyValues = append(kvs.KeyValues, more.KeyValues...)
+					}
+				}
+				r.Probe("failing-write-on-burst")
+			}
 			err := n.store.SetRaw(ctxb, kvs.KeyValues...)
 			n.plan.Armed = false
 			if n.plan.Fired > 0 {
@@ -805,10 +1004,12 @@ func runC12(r *core.Run) {
 		}
 	}
 	// heal: everything in flight is delivered, everybody learns the whole ACL, every ordered pair syncs once
+	w.flushOut()
 	for len(w.msgs) > 0 {
 		m := w.msgs[0]
 		w.msgs = w.msgs[1:]
 		w.deliver(m)
+		w.flushOut()
 	}
 	if !w.lagRun {
 		for _, a := range w.nodes {
